@@ -398,8 +398,6 @@ def gen_callforms(ctx, thorough):
 
 def run(ctx):
     ctx.rule = RULE
-    for case in gen_callforms(ctx, ctx.tier == "thorough"):
-        callform_case(ctx, case)
     for (kind, n, h, scale, am, ph) in gen_cases(ctx, ctx.tier == "thorough"):
         am2 = qc.rand_rbm_params(ctx.rng, n, h, min(scale, 3.0) if scale else 0.5)
         ph2 = qc.rand_rbm_params(ctx.rng, n, h, 1.0) if kind == "cplx" else None
@@ -414,6 +412,8 @@ def run(ctx):
         am2 = qc.rand_rbm_params(ctx.rng, n, h, scale)
         ph2 = qc.rand_rbm_params(ctx.rng, n, h, 1.0) if kind == "cplx" else None
         one_case(ctx, kind, n, h, scale, am, ph, am2=am2, ph2=ph2, aseed=af.draw_aseed(ctx.rng))
+    for case in gen_callforms(ctx, ctx.tier == "thorough"):   # after the older regimes: their seeded streams are unchanged
+        callform_case(ctx, case)
 
 
 def search(ctx):
